@@ -210,6 +210,76 @@ func sliceShapes(path, defName string) {
 	fmt.Println("]")
 }
 
+// the kind switch of frt.toS: for every case clause the reflect kinds it lists and the
+// reflect.Value accessor its body calls on rval (Int, Uint, Float, String) or "%v"
+func toSArms(path string) {
+	fset, f := parseFile(path)
+	_ = fset
+	type arm struct {
+		kinds []string
+		acc   string
+	}
+	var arms []arm
+	dflt := "none"
+	for _, d := range f.Decls {
+		fd, ok := d.(*ast.FuncDecl)
+		if !ok || fd.Name.Name != "toS" {
+			continue
+		}
+		ast.Inspect(fd.Body, func(n ast.Node) bool {
+			cc, ok := n.(*ast.CaseClause)
+			if !ok {
+				return true
+			}
+			acc := "none"
+			ast.Inspect(cc, func(m ast.Node) bool {
+				if ce, ok := m.(*ast.CallExpr); ok {
+					if se, ok := ce.Fun.(*ast.SelectorExpr); ok {
+						if id, ok := se.X.(*ast.Ident); ok && id.Name == "rval" {
+							acc = se.Sel.Name
+						}
+						if id, ok := se.X.(*ast.Ident); ok && id.Name == "fmt" && acc == "none" && len(ce.Args) == 2 {
+							if bl, ok := ce.Args[0].(*ast.BasicLit); ok && bl.Value == "\"%v\"" {
+								if a, ok := ce.Args[1].(*ast.Ident); ok && a.Name == "arg" {
+									acc = "%v"
+								}
+							}
+						}
+					}
+				}
+				return true
+			})
+			if cc.List == nil {
+				dflt = acc
+				return false
+			}
+			var ks []string
+			for _, e := range cc.List {
+				if se, ok := e.(*ast.SelectorExpr); ok {
+					ks = append(ks, se.Sel.Name)
+				}
+			}
+			arms = append(arms, arm{ks, acc})
+			return false
+		})
+	}
+	fmt.Println("/-- arms of the kind switch in frt.toS: (kinds, accessor called on rval) -/")
+	fmt.Println("def toSArms : List (List String × String) := [")
+	for i, a := range arms {
+		q := make([]string, len(a.kinds))
+		for j, k := range a.kinds {
+			q[j] = leanStr(k)
+		}
+		sep := ","
+		if i == len(arms)-1 {
+			sep = ""
+		}
+		fmt.Printf("  ([%s], %s)%s\n", strings.Join(q, ", "), leanStr(a.acc), sep)
+	}
+	fmt.Println("]")
+	fmt.Printf("def toSDefault : String := %s\n", leanStr(dflt))
+}
+
 var identRe = regexp.MustCompile(`[A-Za-z_][A-Za-z0-9_]*`)
 
 func main() {
@@ -226,6 +296,14 @@ func main() {
 		fmt.Println("namespace Folang.Generated")
 		exportedFuncs(repo+"/pkg/slice/slice.go", "sliceFuncs")
 		sliceShapes(repo+"/pkg/slice/slice.go", "sliceShapes")
+		fmt.Println("end Folang.Generated")
+	case "lib":
+		fmt.Println("namespace Folang.Generated")
+		exportedFuncs(repo+"/pkg/dict/dict.go", "dictFuncs")
+		exportedFuncs(repo+"/pkg/strings/strings.go", "stringsFuncs")
+		exportedFuncs(repo+"/pkg/buf/buf.go", "bufFuncs")
+		exportedFuncs(repo+"/pkg/frt/frt.go", "frtFuncs")
+		toSArms(repo + "/pkg/frt/frt.go")
 		fmt.Println("end Folang.Generated")
 	default:
 		die(fmt.Errorf("unknown kind %s", os.Args[1]))
